@@ -2588,26 +2588,10 @@ impl Block {
             })
             .collect();
 
-        let mut i = 0;
-        while i + 1 < pruned_txs.len() {
-            if pruned_txs[i].transaction_type == TransactionType::SPV
-                && pruned_txs[i + 1].transaction_type == TransactionType::SPV
-                && pruned_txs[i].txs_replacements == pruned_txs[i + 1].txs_replacements
-            {
-                pruned_txs[i].txs_replacements *= 2;
-                let combined_hash = hash(
-                    &[
-                        pruned_txs[i].hash_for_signature.unwrap(),
-                        pruned_txs[i + 1].hash_for_signature.unwrap(),
-                    ]
-                    .concat(),
-                );
-                pruned_txs[i].hash_for_signature = Some(combined_hash);
-                pruned_txs.remove(i + 1);
-            } else {
-                i += 2;
-            }
-        }
+        // every transaction left out keeps a placeholder of its own. (two neighbouring placeholders used to
+        // be folded into one that carried the hash of the pair and a replacement count of 2; the merkle
+        // tree turns such a placeholder into two leaves with that same hash, so the root recomputed from a
+        // lite block with a folded placeholder never was the root the header commits to)
 
         // a placeholder carries the hash it stands for in the first half of its signature field: that is
         // where the receiving side reads it from (the hash itself does not travel)
